@@ -648,6 +648,12 @@ def main(argv):
         # ---- correspondence
         try:
             modelrun = build_model()
+            # everything that writes shared build state (harness, dump, Gen, .vo files, the extracted model) is done: the
+            # rest only RUNS those binaries and writes per-property files, so other checks need not wait for it
+            try:
+                fcntl.flock(lockf, fcntl.LOCK_UN)
+            except OSError:
+                pass
             rng = inputs.Rng(seed)
             fams = spec["families"](rng, tier)
             stats, all_mis = correspondence(prop, fams, bins, modelrun, os.path.join(BUILD, "work", prop))
